@@ -34,7 +34,7 @@ def gen_fact(rng, n, cols=None, allow_int=True, garbage=True):
         vals = [rng.randint(-5, 9) for _ in range(size)]
     else:
         vals = [rng.choice((0.0, 1.0, 2.5, -1.5, 3.0, 0.25, 7.0, rng.uniform(-4, 4))) for _ in range(size)]
-    layout = rng.choice(("plain", "plain", "strided", "readonly", "fortran"))
+    layout = rng.choice(("plain", "plain", "strided", "readonly", "fortran", "list"))
     if form == "nan":
         vals = [v if ok else NAN for v, ok in zip(vals, validity)]
         return {"form": "nan", "dtype": "float", "shape": shape, "values": _enc(vals), "validity": None, "layout": layout}
@@ -190,6 +190,8 @@ def _layout(a, layout):
         return a
     if layout == "fortran" and a.ndim == 2:
         return numpy.asfortranarray(a)
+    if layout == "list":
+        return a.tolist()  # plain (nested) Python lists are accepted wherever an array is
     return a
 
 
